@@ -6,6 +6,7 @@ import (
 	"os"
 	"path/filepath"
 	"strings"
+	"sync"
 
 	"golang.org/x/tools/go/packages"
 	"golang.org/x/tools/go/ssa"
@@ -18,6 +19,9 @@ type Program struct {
 	Main  *ssa.Package
 	Sizes types.Sizes
 	Pkgs  []*packages.Package
+
+	base     *interpreter
+	baseOnce sync.Once
 }
 
 // Load loads pattern from dir (the repo's current working tree), overlaying
